@@ -7,6 +7,7 @@ package main
 
 import (
 	"fmt"
+	"sort"
 	"strings"
 
 	"golang.org/x/tools/go/ssa"
@@ -284,6 +285,24 @@ func (vc *VC) intCellTerms(env *Env) []Term {
 			seen[d.S] = true
 			out = append(out, d)
 		}
+	}
+	// integer-valued names bound in the environment (lemma parameters,
+	// function parameters)
+	var names []string
+	for n := range env.vars {
+		names = append(names, n)
+	}
+	sort.Strings(names)
+	for _, n := range names {
+		tv := env.vars[n]
+		if tv.T.Sort != SInt || seen[tv.T.S] {
+			continue
+		}
+		if tv.Typ != nil && !isInteger(tv.Typ) {
+			continue
+		}
+		seen[tv.T.S] = true
+		out = append(out, tv.T)
 	}
 	return out
 }
